@@ -27,8 +27,10 @@ AbsInt(x) == IF x < 0 THEN -x ELSE x
 
 \* NOTE on evaluation cost: inside an action TLC re-evaluates a LET definition at every reference, but an operator
 \* ARGUMENT is evaluated once.  Everything expensive is therefore passed down as an argument.
-GoJudge(hist, p, EV, sm, d, plain, rp, got, child, line) ==
+GoJudge(hist, p, EV, sm, d, plain, rp, got, child, line, lo, hi) ==
   LET v == rp[1]
+      deep == Ev.mode = "deeprep"
+      gotv == IF got.kind = "cp" THEN (IF Ch(got.v, 1) = "-" THEN -ParseNat(SubSeq(got.v, 2, Len(got.v))) ELSE ParseNat(got.v)) ELSE 0
       missing == AbsInt(v) > 1200000
       exp == ToUciScore(v)
       isRep == Ev.mode = "rep" /\ Len(child) = 2 /\ RepetitionDraw(hist \o <<child[2]>>)
@@ -42,13 +44,17 @@ GoJudge(hist, p, EV, sm, d, plain, rp, got, child, line) ==
             <<Ev.st = "ok", "C07", "no bestmove for go depth " \o ToString(d), "bestmove">>,
             <<Legal(p) = {} => (Ev.best = "none" /\ got.kind = "none"), "C07", "a move-less root must be answered with the null move and no score", "none">>,
             <<terminal \/ Ev.depth_seen = d, Prop, "last scored info has depth " \o ToString(Ev.depth_seen), ToString(d)>>,
-            <<~missing \/ isRep, Prop, "a position of the legal depth-" \o ToString(d) \o " tree (with capture resolution) was not visited by the implementation's own tree walk",
+            <<~missing \/ isRep \/ deep, Prop, "a position of the legal depth-" \o ToString(d) \o " tree (with capture resolution) was not visited by the implementation's own tree walk",
               IF missing /\ ~isRep THEN ToString(Keys(p, d) \ EV.d) ELSE "">>,
             <<isRep => repOk, "C10", "line reaching a threefold repetition must be scored as a draw (+- contempt " \o ToString(c) \o "): " \o ScoreStr(got),
               "cp " \o ToString(c)>>,
-            <<(~isRep /\ ~missing /\ ~terminal) => got = exp, IF Ev.mode \in {"rep", "fifty"} THEN "C10" ELSE Prop,
+            <<deep => lo, "C10", "machinery: the case is not a forced cycle completing a threefold repetition at ply 4", "">>,
+            <<(deep /\ lo) => ((got.kind = "mate" /\ Ch(got.v, 1) # "-") \/ (got.kind = "cp" /\ gotv >= -c)), "C10",
+              "the side to move can force a threefold repetition within the searched depth (every reply on the cycle is forced), yet go depth " \o ToString(d) \o
+              " scores " \o ScoreStr(got) \o ": the repeating line was not valued as a draw", "at least cp " \o ToString(-c)>>,
+            <<(~deep /\ ~isRep /\ ~missing /\ ~terminal) => got = exp, IF Ev.mode \in {"rep", "fifty"} THEN "C10" ELSE Prop,
               "score " \o ScoreStr(got) \o " of go depth " \o ToString(d) \o " on " \o RenderFen(p) \o " differs from the minimax value", ScoreStr(exp)>>,
-            <<(~isRep /\ ~missing /\ ~terminal /\ got = exp) => (IF plain THEN Ev.best \in rp[2] ELSE AttainsAB(EV, p, d, Ev.best, v)), Prop,
+            <<(~deep /\ ~isRep /\ ~missing /\ ~terminal /\ got = exp) => (IF plain THEN Ev.best \in rp[2] ELSE AttainsAB(EV, p, d, Ev.best, v)), Prop,
               "bestmove " \o Ev.best \o " does not attain the minimax value " \o ScoreStr(exp), IF plain THEN ToString(rp[2]) ELSE "">>,
             <<Len(line) = Len(Ev.pv) + 1 /\ (Ev.pv # <<>> => Ev.pv[1] = Ev.best), Prop, "principal variation is not a legal line starting with the best move: " \o ToString(Ev.pv), "">>,
             <<mateN > 0 => (Len(Ev.pv) = 2 * mateN - 1 /\ Len(line) = Len(Ev.pv) + 1 /\ IsMate(line[Len(line)])), Prop,
@@ -56,17 +62,27 @@ GoJudge(hist, p, EV, sm, d, plain, rp, got, child, line) ==
             <<Ev.flipof = 0 \/ (prevGo.fen = RenderFen(Flip(PosOfFen(Ev.fen))) /\ prevGo.score = got), "C11",
               "score on the colour-flipped twin differs: " \o ScoreStr(got) \o " vs " \o ToString(prevGo.score), ToString(prevGo.score)>> >>)
      /\ prevGo' = [fen |-> Ev.fen, score |-> got]
-     /\ ntr' = IF d >= 2 \/ got.kind = "mate" \/ isRep \/ (Ev.mode = "fifty" /\ p.hmc >= 90) THEN ntr \cup {l} ELSE ntr
+     /\ ntr' = IF d >= 2 \/ got.kind = "mate" \/ isRep \/ deep \/ (Ev.mode = "fifty" /\ p.hmc >= 90) THEN ntr \cup {l} ELSE ntr
+
+\* cyc = positions along the four cycle moves from the root: both replies of the opponent are the only legal moves, and the
+\* position reached has then occurred three times inside the reversible window
+ForcedCycle(hist, cyc) ==
+  /\ Len(cyc) = 5
+  /\ Cardinality(Legal(cyc[2])) = 1 /\ Cardinality(Legal(cyc[4])) = 1
+  /\ RepetitionDraw(hist \o SubSeq(cyc, 2, 5))
 
 GoWith(hist, EV) ==
   LET p == hist[Len(hist)]
       sm == ToS(Ev.searchmoves)
       plain == Ev.ref # "ab"
+      deep == Ev.mode = "deeprep"
   IN GoJudge(hist, p, EV, sm, Ev.d, plain,
-             IF plain THEN RootPlain(EV, p, Ev.d, sm) ELSE <<RootAB(EV, p, Ev.d, sm), {}>>,
+             IF deep THEN <<0, {}>> ELSE IF plain THEN RootPlain(EV, p, Ev.d, sm) ELSE <<RootAB(EV, p, Ev.d, sm), {}>>,
              [kind |-> Ev.score.kind, v |-> Ev.score.v],
              IF Len(Ev.searchmoves) = 1 THEN Positions(p, Ev.searchmoves, 1) ELSE <<p>>,
-             Positions(p, Ev.pv, 1))
+             Positions(p, Ev.pv, 1),
+             IF deep THEN ForcedCycle(hist, Positions(p, Ev.cycle, 1)) ELSE FALSE,
+             0)
 
 GoDepth ==
   /\ Ev.ev = "godepth"
